@@ -862,6 +862,10 @@ class Builder(object):
                     src = self.currentStore.create(srcPath)
                     #assumes src share inited before this line parsed
                     for field in srcFields:
+                        if field not in src:
+                            msg = "ParseError: Building verb '%s'. No field '%s' in source '%s'" % \
+                                (command, field, srcPath)
+                            raise excepting.ParseError(msg, tokens, index)
                         init[field] = src[field]
 
                 else:
